@@ -2,7 +2,7 @@
     Python harness.  A case is a program: a list of operations over graph registers, each operation a
     [list Z]; running it yields one [list Z] per operation.  All decoding/encoding is done here, in
     Gallina, so the OCaml driver is a dumb pipe. *)
-From DynVerif Require Import Base Graph Derived Annotate Paths IO.
+From DynVerif Require Import Base Graph Derived Annotate Paths IO Stats.
 
 Definition oz (has x : Z) : option Z := if has =? 0 then None else Some x.
 Definition zb (b : bool) : Z := if b then 1 else 0.
@@ -116,7 +116,9 @@ Definition step_op (rs : regs) (op : list Z) : regs * list Z :=
   | 0 :: r :: dir :: rem :: _ => (setr rs r (empty_graph (bz dir) (bz rem)), [])
   | 1 :: r :: u :: v :: ht :: t :: he :: e :: _ =>
       let '(g', o) := add_interaction (getr rs r) u v (oz ht t) (oz he e) in (setr rs r g', [out_code o])
-  | 2 :: r :: n :: a :: _ => (setr rs r (add_node (getr rs r) n a), [])
+  | 2 :: r :: n :: a :: _ =>
+      let g := getr rs r in
+      if g_frozen g then (rs, [out_code EFrozen]) else (setr rs r (add_node g n a), [0])
   | 3 :: r :: kind :: ht :: t :: he :: e :: l =>
       let g := getr rs r in
       let es := if kind =? 0 then pairs_of l else if kind =? 1 then path_pairs l
@@ -125,7 +127,12 @@ Definition step_op (rs : regs) (op : list Z) : regs * list Z :=
       (setr rs r g', [out_code o])
   | 4 :: r :: kind :: _ =>
       let g := getr rs r in
-      (setr rs r (if kind =? 0 then clear g else clear_edges g), [])
+      if g_frozen g then (rs, [out_code EFrozen])
+      else (setr rs r (if kind =? 0 then clear g else clear_edges g), [0])
+  | 41 :: r :: _ => (setr rs r (with_frozen (getr rs r) true), [])
+  (* an inherited networkx callable: blocked ones raise NetworkXNotImplemented, the others are queries, views or
+     factories; neither changes the graph (the harness maps add_node / clear / ... to their own operations) *)
+  | 42 :: r :: blocked :: _ => (rs, [if blocked =? 0 then 0 else if blocked =? 2 then out_code EFrozen else out_code ENotImplemented])
   | 5 :: r :: n :: _ =>
       (* poke: mutate (in place) the attribute values of node n and of the graph in register r *)
       let g := getr rs r in
@@ -251,6 +258,21 @@ Definition step_op (rs : regs) (op : list Z) : regs * list Z :=
   | 82 :: src :: dst :: dirarg :: _ =>
       (match node_link_graph (node_link_data (getr rs src)) (bz dirarg) with
        | RdOk h => (setr rs dst h, [0]) | RdErr o => (rs, [out_code o]) end)
+  (* --- statistics: ratios as [num; den]; [-1] = KeyError / no slice --- *)
+  | 90 :: r :: which :: u :: v :: _ =>
+      let g := getr rs r in
+      let pr := fun (x : Z * Z) => [fst x; snd x] in
+      (rs, if which =? 0 then pr (coverage g)
+           else if which =? 1 then pr (node_contribution g u)
+           else if which =? 2 then match edge_contribution g u v with Some x => pr x | None => [-1] end
+           else if which =? 3 then pr (node_pair_uniformity g u v)
+           else if which =? 4 then pr (uniformity g)
+           else if which =? 5 then pr (st_density g)
+           else if which =? 6 then pr (pair_density g u v)
+           else if which =? 7 then pr (node_density g u)
+           else if which =? 8 then match snapshot_density g u with Some x => pr x | None => [-1] end
+           else node_presence g u)
+  | 91 :: r :: sel :: u :: _ => (rs, flat_pairs (inter_event_time_distribution (getr rs r) sel u))
   | 78 :: r :: d :: _ =>
       (rs, flat_map (fun x => let ln := render_snap_row d x in Z.of_nat (length ln) :: ln) (gen_snapshots (getr rs r)))
   | 79 :: r :: d :: _ =>
